@@ -141,6 +141,9 @@ func returnsOf(f *ssa.Function) []*ssa.Return {
 			continue
 		}
 		if r, ok := b.Instrs[len(b.Instrs)-1].(*ssa.Return); ok {
+			if f.Recover == b && len(b.Preds) == 0 && !recovers(f) {
+				continue // entered only when a deferred call recovers a panic: not a way the function returns in a run that counts
+			}
 			out = append(out, r)
 		}
 	}
@@ -823,4 +826,24 @@ func pathAssignmentsW(fn *ssa.Function, site ssa.Instruction, name func(ssa.Valu
 	}
 	visit(fn.Blocks[0], nil, state{map[string]bool{}, map[*ssa.Phi]phiVal{}})
 	return envs, atomVal, complete
+}
+
+// recovers: a function literal of f calls recover() (a deferred call may then turn a
+// panic into a normal return through f's recover block).
+func recovers(f *ssa.Function) bool {
+	for _, an := range f.AnonFuncs {
+		for _, b := range an.Blocks {
+			for _, ins := range b.Instrs {
+				if c, ok := ins.(ssa.CallInstruction); ok {
+					if bi, ok := c.Common().Value.(*ssa.Builtin); ok && bi.Name() == "recover" {
+						return true
+					}
+				}
+			}
+		}
+		if recovers(an) {
+			return true
+		}
+	}
+	return false
 }
